@@ -40,6 +40,25 @@ def hGather (toks : List String) : Option String := do
   let y := unbatchifyAndGather (iota n.toNat) (fun b => (natsOf idx).getD b 0) k.toNat
   pure s!"shape={natsStr y.shape} rows={natsStr y.flat}"
 
+/-- `ops.gather2 B N S squeeze(0/1/2=default) | idx (B rows of S)` on `src : [B, N, 1]` tagged `b·N + j` -/
+def hGather2 (toks : List String) : Option String := do
+  let [hd, idx] ← parseSections toks | none
+  let [b, n, s, sq] := hd | none
+  let (b, n, s) := (b.toNat, n.toNat, s.toNat)
+  let src : Tens Nat := { shape := [b, n, 1], get := fun i => match i with | r :: j :: _ => r * n + j | _ => 0 }
+  let ix := fun r c => (natsOf idx).getD (r * s + c) 0
+  let y := if sq == 2 then gatherIdxDefault src s ix else gatherIdx src s ix (sq != 0)
+  pure s!"shape={natsStr y.shape} flat={natsStr y.flat}"
+
+/-- `ops.tdfetch len | idxs` on the TensorDict `{id: [0..len-1], x: [100..]}`: the batch every class delivers -/
+def hTdFetch (toks : List String) : Option String := do
+  let [hd, idxs] ← parseSections toks | none
+  let [len] := hd | none
+  let n := len.toNat
+  let td : Cols Nat := [("id", List.range n), ("x", (List.range n).map (· + 100))]
+  let show_ := fun (c : Cols Nat) => ";".intercalate (c.map (fun kc => kc.1 ++ ":" ++ natsStr kc.2))
+  pure s!"tdd={show_ (tddFetch td 0 n (natsOf idxs))} fast={show_ (fastGetitems td 0 (natsOf idxs))} fastgen={show_ (fastGenGetitems td 0 (natsOf idxs))}"
+
 /-- `ops.bestactions N B | idx[0..B-1]` → rows whose FIRST action `get_best_actions` returns -/
 def hBestActions (toks : List String) : Option String := do
   let [hd, idx] ← parseSections toks | none
@@ -62,7 +81,9 @@ def hStarts (toks : List String) : Option String := do
   let (lo, m) := genericRule env g.toNat
   let (lo', m') := envRule env g.toNat a.toNat l.toNat
   let code := genericStartsCode (lo != 0) b.toNat k.toNat m
-  pure s!"generic={natsStr code} method={natsStr (startsOf b.toNat k.toNat lo' m')}"
+  let (l1, m1) := hookRule false env g.toNat a.toNat l.toNat
+  let (l2, m2) := hookRule true env g.toNat a.toNat l.toNat
+  pure s!"generic={natsStr code} method={natsStr (startsOf b.toNat k.toNat lo' m')} hookms={natsStr (startsOf b.toNat k.toNat l1 m1)} hookbeam={natsStr (startsOf b.toNat k.toNat l2 m2)}"
 
 def splitRows (w : Nat) : Nat → List Int → List (Nat → Bool)
   | 0, _ => []
@@ -165,7 +186,7 @@ def hSpecFetch (toks : List String) : Option String := do
 
 def handlers : List (String × (List String → Option String)) :=
   [("ops.batchify", hBatchify), ("ops.unbatchify", hUnbatchify), ("ops.rearrange", hRearrange),
-   ("ops.gather", hGather), ("ops.bestactions", hBestActions), ("ops.numstarts", hNumStarts),
+   ("ops.gather", hGather), ("ops.gather2", hGather2), ("ops.tdfetch", hTdFetch), ("ops.bestactions", hBestActions), ("ops.numstarts", hNumStarts),
    ("ops.starts", hStarts), ("ops.opstarts", hOpStarts), ("ops.samplen", hSampleN), ("ops.selectbest", hSelectBest),
    ("ops.loader", hLoader), ("ops.evalcall", hEvalCall), ("ops.gatherdefault", hGatherDefault), ("ops.spec.expand", hSpecExpand), ("ops.spec.regroup", hSpecRegroup),
    ("ops.spec.starts", hSpecStarts), ("ops.spec.best", hSpecBest), ("ops.spec.loader", hSpecLoader), ("ops.spec.fetch", hSpecFetch)]
